@@ -3,11 +3,60 @@
 usage: run.py <PROPERTY> <tier> <out.json>"""
 import json, os, sys, time
 sys.path.insert(0, os.path.dirname(os.path.abspath(__file__)))
-import loader, c01_parser
+import loader
 
-BOUNDS = {"quick": [1, 2, 3], "thorough": [1, 2, 3, 4]}
+PARSER_BOUNDS = {"quick": [1, 2, 3], "thorough": [1, 2, 3, 4]}
 # quick also explores 4 tokens over a reduced vocabulary (one representative per kind of primary)
 SMALL_VOCAB = ["-true", "-print", "-quit", "-empty", "!", "-a", "-o", ",", "(", ")"]
+PRIMS = {"-true", "-false", "-print", "-print0", "-prune", "-quit", "-empty", "-readable"}
+BATCH_BOUNDS = {"quick": [0, 1, 2, 3], "thorough": [0, 1, 2, 3, 4]}
+
+
+def run_parser(tier, funcs, index, enums, res):
+    import c01_parser
+    res["target"] = "build_top_level_matcher + <Box<dyn Matcher> as Matcher>::matches on symbolic token sequences"
+    res["vocabulary"] = c01_parser.VOCAB
+    plans = [(n, c01_parser.VOCAB) for n in PARSER_BOUNDS[tier]]
+    if tier == "quick":
+        plans.append((4, SMALL_VOCAB))
+    for n, vocab in plans:
+        r = c01_parser.explore(n, funcs, index, enums, vocab=vocab)
+        res["functions_executed"].update(r.pop("functions_executed"))
+        for v in r.pop("violations"):
+            shape = " ".join("P" if t in PRIMS else t for t in v["tokens"]) + " | " + v["what"].split("(")[0].strip()
+            res["violations"].append({"key": shape, "summary": "%s: %s" % (" ".join(v["tokens"]), v["what"]), "replayer": "parser_tokens",
+                                      "tokens": v["tokens"], "leaves": v["leaves"], "n": n})
+        for k, c in r.pop("unsupported").items():
+            res["unsupported"][k] = res["unsupported"].get(k, 0) + c
+        r["bound"] = "%d tokens over %d words" % (n, len(vocab))
+        r["inputs_covered"] = r.pop("sentences_checked")
+        res["runs"].append(r)
+    res["bounds"] = "every token sequence of length %s over the %d-word vocabulary %s%s; two symbolic leaf tests; one abstract file (a directory)" % (
+        PARSER_BOUNDS[tier], len(c01_parser.VOCAB), c01_parser.VOCAB, " and of length 4 over %s" % SMALL_VOCAB if tier == "quick" else "")
+
+
+def run_batching(tier, funcs, index, enums, res):
+    import c04_batching
+    res["target"] = "CommandBuilderOptions::new + process_input with the real limiter chain; symbolic argument lengths, limits, line structure and child outcomes"
+    for nargs in BATCH_BOUNDS[tier]:
+        for cfg in c04_batching.CONFIGS:
+            r = c04_batching.explore(nargs, cfg, funcs, index, enums)
+            res["functions_executed"].update(r.pop("functions_executed"))
+            for v in r.pop("violations"):
+                res["violations"].append({"key": "%s | %s" % (v["what"], json.dumps(cfg, sort_keys=True)), "summary": "%s; batches %s; config %s; witness %s" % (
+                    v["what"], v.get("batches"), {k: x for k, x in cfg.items() if x}, v.get("witness")), "replayer": "batching", "config": cfg, "nargs": nargs,
+                    "witness": v.get("witness"), "batches": v.get("batches"), "what": v["what"]})
+            for p in r.pop("panics"):
+                res["violations"].append({"key": "panic " + p["panic"][:60], "summary": "panic: %s (batches %s)" % (p["panic"], p["batches"]), "replayer": "batching",
+                                          "config": cfg, "nargs": nargs, "witness": None})
+            for k, c in r.pop("unsupported").items():
+                res["unsupported"][k] = res["unsupported"].get(k, 0) + c
+            r["bound"] = "%d arguments, options %s" % (nargs, "".join("-" + k for k, x in cfg.items() if x) or "(none)")
+            r["inputs_covered"] = r.pop("obligations")
+            res["runs"].append(r)
+    res["bounds"] = ("%s input arguments; argument lengths 1..%d, command length 1..8, -n 1..4, -L 1..4, -s 0..%d (all symbolic); every line structure; every outcome "
+                     "sequence over {exit 0, exit 1..125, exit 255}; option sets %s" % (BATCH_BOUNDS[tier], c04_batching.MAXLEN, 4 * c04_batching.MAXLEN + 20,
+                                                                                       ["".join("-" + k for k, x in c.items() if x) or "(none)" for c in c04_batching.CONFIGS]))
 
 
 def main():
@@ -15,35 +64,20 @@ def main():
     t0 = time.time()
     funcs, index, enums, dump_s, text = loader.load()
     res = {"engine": "mirsym: path-exploring symbolic execution of rustc MIR (cargo +nightly rustc -Zunpretty=mir) with z3 %s" % __import__("z3").get_version_string(),
-           "mir_dump_s": round(dump_s, 1), "mir_lines": text.count("\n"), "runs": [], "violations": [], "unsupported": {}}
-    execd = set()
-    for n in BOUNDS[tier]:
-        r = c01_parser.explore(n, funcs, index, enums)
-        execd.update(r.pop("functions_executed"))
-        for v in r.pop("violations"):
-            v["n"] = n
-            res["violations"].append(v)
-        for k, c in r.pop("unsupported").items():
-            res["unsupported"][k] = res["unsupported"].get(k, 0) + c
-        r["tokens"] = n
-        res["runs"].append(r)
-    if tier == "quick":
-        r = c01_parser.explore(4, funcs, index, enums, vocab=SMALL_VOCAB)
-        execd.update(r.pop("functions_executed"))
-        for v in r.pop("violations"):
-            v["n"] = 4
-            res["violations"].append(v)
-        for k, c in r.pop("unsupported").items():
-            res["unsupported"][k] = res["unsupported"].get(k, 0) + c
-        r["tokens"] = 4
-        r["vocabulary"] = SMALL_VOCAB
-        res["runs"].append(r)
-    res["functions_executed"] = sorted(execd)
-    res["vocabulary"] = c01_parser.VOCAB
+           "mir_dump_s": round(dump_s, 1), "mir_lines": text.count("\n"), "runs": [], "violations": [], "unsupported": {}, "functions_executed": set()}
+    if prop in ("C01", "C11"):
+        run_parser(tier, funcs, index, enums, res)
+    elif prop in ("C04", "C19"):
+        run_batching(tier, funcs, index, enums, res)
+    else:
+        raise SystemExit("no MIR-level check for " + prop)
+    res["functions_executed"] = sorted(res["functions_executed"])
+    res["paths"] = sum(r["paths"] for r in res["runs"])
+    res["inputs_covered"] = sum(r["inputs_covered"] for r in res["runs"])
+    res["solver_calls"] = sum(r["solver_calls"] for r in res["runs"])
     res["wall_s"] = round(time.time() - t0, 1)
     json.dump(res, open(out, "w"), indent=1)
-    print("mirsym %s %s: %d paths, %d sentences, %d violations, %.0fs" % (prop, tier, sum(r["paths"] for r in res["runs"]),
-          sum(r["sentences_checked"] for r in res["runs"]), len(res["violations"]), res["wall_s"]))
+    print("mirsym %s %s: %d paths, %d inputs/obligations, %d violations, %.0fs" % (prop, tier, res["paths"], res["inputs_covered"], len(res["violations"]), res["wall_s"]))
 
 
 if __name__ == "__main__":
